@@ -235,3 +235,37 @@ func VerifH_C08_Step(cw, ch, mode, fills int) {
 	verifapi.Assert(vSamePicture(e.prevCanvas, curr, false), "encoder remembers the picture it wrote")
 	verifapi.Assert(e.prevFrameRect == anim.Frames[1].Bounds(), "encoder's previous-frame rectangle is the rectangle written")
 }
+
+// VerifH_C08_ChangedRect: the rectangle the encoder restricts a sub-frame to contains EVERY pixel that
+// differs between the previous and the next canvas (all pixels symbolic), and it is empty only when the
+// two canvases are equal; each of its four edges touches a differing pixel (so it is the bounding box).
+func VerifH_C08_ChangedRect(w, h int) {
+	prev := vSymCanvas(w, h, "p")
+	curr := vSymCanvas(w, h, "c")
+	r := findChangedRect(prev, curr)
+	verifapi.Assert(r.Min.X >= 0 && r.Min.Y >= 0 && r.Max.X <= w && r.Max.Y <= h && r.Min.X <= r.Max.X && r.Min.Y <= r.Max.Y, "changed rectangle lies inside the canvas")
+	top, bottom, left, right := false, false, false, false
+	for y := 0; y < h; y++ {
+		for x := 0; x < w; x++ {
+			if prev.NRGBAAt(x, y) != curr.NRGBAAt(x, y) {
+				verifapi.Assert(x >= r.Min.X && x < r.Max.X && y >= r.Min.Y && y < r.Max.Y, "every differing pixel lies inside the changed rectangle")
+				if y == r.Min.Y {
+					top = true
+				}
+				if y == r.Max.Y-1 {
+					bottom = true
+				}
+				if x == r.Min.X {
+					left = true
+				}
+				if x == r.Max.X-1 {
+					right = true
+				}
+			}
+		}
+	}
+	if !r.Empty() {
+		verifapi.Cover(true, "non-empty changed rectangle")
+		verifapi.Assert(top && bottom && left && right, "changed rectangle is the bounding box of the differing pixels")
+	}
+}
